@@ -189,6 +189,9 @@ def run():
     c.const_override[1] = {("virtual", "signal-A"): 3}
     expect("lamp off", c.entity_condition(c.initial_state(), 3)[0], False)
 
+    c = Circuit(bp([lamp], []))
+    expect("unconnected lamp ignores its condition", c.entity_condition(c.initial_state(), 3), (True, "not-connected"))
+
     # 15. non-settling oscillator is reported
     c = Circuit(bp([decider(1, [{"first_signal": V("signal-A"), "comparator": "=", "constant": 0}],
                             [{"signal": V("signal-A"), "copy_count_from_input": False}])], [[1, 3, 1, 1]]))
